@@ -581,29 +581,51 @@ impl From<&RevocationRegistry> for RevocationRegistryDelta {
 
 /// `Revocation Registry Delta` contains Accumulator changes.
 /// Must be applied to `Revocation Registry`
-#[cfg_attr(feature = "serde", derive(Serialize, Deserialize))]
+#[cfg_attr(feature = "serde", derive(Deserialize))]
 #[derive(Debug, Clone, PartialEq, Eq)]
 #[cfg_attr(feature = "serde", serde(rename_all = "camelCase"))]
 pub struct RevocationRegistryDelta {
-    #[cfg_attr(
-        feature = "serde",
-        serde(default),
-        serde(skip_serializing_if = "Option::is_none")
-    )]
+    #[cfg_attr(feature = "serde", serde(default))]
     pub(crate) prev_accum: Option<Accumulator>,
     pub(crate) accum: Accumulator,
-    #[cfg_attr(
-        feature = "serde",
-        serde(default),
-        serde(skip_serializing_if = "HashSet::is_empty")
-    )]
+    #[cfg_attr(feature = "serde", serde(default))]
     pub(crate) issued: HashSet<u32>,
-    #[cfg_attr(
-        feature = "serde",
-        serde(default),
-        serde(skip_serializing_if = "HashSet::is_empty")
-    )]
+    #[cfg_attr(feature = "serde", serde(default))]
     pub(crate) revoked: HashSet<u32>,
+}
+
+// Empty fields are omitted in human-readable formats only: in a positional format (compact
+// MessagePack writes structs as arrays) an omitted field shifts the following ones.
+#[cfg(feature = "serde")]
+impl Serialize for RevocationRegistryDelta {
+    fn serialize<S: serde::Serializer>(&self, serializer: S) -> Result<S::Ok, S::Error> {
+        use serde::ser::SerializeStruct;
+        let skip = serializer.is_human_readable();
+        let (prev, issued, revoked) = (
+            !(skip && self.prev_accum.is_none()),
+            !(skip && self.issued.is_empty()),
+            !(skip && self.revoked.is_empty()),
+        );
+        let len = 1 + prev as usize + issued as usize + revoked as usize;
+        let mut st = serializer.serialize_struct("RevocationRegistryDelta", len)?;
+        if prev {
+            st.serialize_field("prevAccum", &self.prev_accum)?;
+        } else {
+            st.skip_field("prevAccum")?;
+        }
+        st.serialize_field("accum", &self.accum)?;
+        if issued {
+            st.serialize_field("issued", &self.issued)?;
+        } else {
+            st.skip_field("issued")?;
+        }
+        if revoked {
+            st.serialize_field("revoked", &self.revoked)?;
+        } else {
+            st.skip_field("revoked")?;
+        }
+        st.end()
+    }
 }
 
 impl RevocationRegistryDelta {
